@@ -19,7 +19,9 @@ CONFIG = dict(
     rule="random histories of 6..30 commands on 1-2 connections (never the same mailbox open on both) over CREATE/DELETE/RENAME/"
          "SUBSCRIBE/UNSUBSCRIBE/LIST(+SUBSCRIBED, patterns, RETURN STATUS)/STATUS/APPEND/SELECT/EXAMINE/CLOSE/UNSELECT/NOOP/"
          "STORE(set/add/remove, silent, UID)/COPY/MOVE/EXPUNGE/UID EXPUNGE/SEARCH(all key kinds, NOT/OR/groups, RETURN options, "
-         "UID)/FETCH(FLAGS, UID, RFC822.SIZE, INTERNALDATE, FAST, RFC822*, BODY[..] sections with partials up to 2^63-1) with "
+         "UID)/FETCH(FLAGS, UID, RFC822.SIZE, INTERNALDATE, FAST/ALL/FULL, RFC822*, BODY[..] sections with partials up to 2^63-1, and - judged for "
+         "crashes and complete response lines only - BODY/BODYSTRUCTURE/ENVELOPE in every order and numbered sections of multipart/"
+         "message bodies) with "
          "2-8 mailbox names, delete+recreate, rename, verification fetches after APPEND/COPY/MOVE, plus a corpus of past "
          "failures; non-trivial = some response carries FETCH/EXPUNGE/COPYUID/SEARCH data; distinct = different case line",
     nontrivial=_c09_nontrivial,
